@@ -160,14 +160,20 @@ def run(ctx):
                         eff.add((e.lhs[2].rsplit('::', 1)[-1], 'set', e.rhs[1] if e.rhs[0] == 'int' else '?'))
                     if e.kind == 'incdec' and e.lhs[0] == 'field' and e.lhs[2] in (TC, WR) and e.op == '++':
                         eff.add((e.lhs[2].rsplit('::', 1)[-1], 'inc', 1))
+            inloop = set()
+            for h_ in vg.loop_heads():
+                inloop |= cg.natural_loop(vg, h_['id']) | {h_['id']}
+            blocking = any(e.kind == 'call' and e.q.rsplit('::', 1)[-1] in ('futex_wait', 'yield', 'sched_yield') for eid in range(len(g['elems'])) for e in vg.events_of(eid))
             for b in vg.blocks:
                 at = vg.cond_atom(b['id'])
                 if at:
                     r = repr(at[0])
+                    # a futex or a busy wait can return before the condition holds (value changed once, spurious wake-up): it must be re-tested in a loop
+                    once = g is f and b['id'] not in inloop
                     if 'num_workers' in r and at[0][0] == 'bin' and at[0][1] == '<':
-                        eff.add(('wait', 'thread_counter>=num_workers'))
+                        eff.add(('wait-once' if once else 'wait', 'thread_counter>=num_workers'))
                     if at[0][0] == 'bin' and at[0][1] == '==' and ('round' in r) and ('work_round' in r or 'round' in r) and 'num_workers' not in r:
-                        eff.add(('wait', 'work_round==expected'))
+                        eff.add(('wait-once' if once else 'wait', 'work_round==expected'))
             for eid in range(len(g['elems'])):
                 for e in vg.events_of(eid):
                     if e.kind == 'return':
@@ -186,8 +192,8 @@ def run(ctx):
                 ctx.unrecognised('R3', '%s::%s: %d definitions' % (cls, nm, len(fs)))
                 continue
             eff = effects(fs[0])
-            core = set(x for x in eff if x[0] in ('thread_counter', 'work_round', 'wait'))
-            ok = need <= core and not [x for x in core - need if x[1] in ('set', 'inc')]
+            core = set(x for x in eff if x[0] in ('thread_counter', 'work_round', 'wait', 'wait-once'))
+            ok = need <= core and not [x for x in core - need if x[1] in ('set', 'inc')] and not [x for x in core if x[0] == 'wait-once']
             ctx.check(ok, 'R3', '%s::%s' % (cls.rsplit('::', 1)[-1], nm), where(fs[0]), 'effects %s, protocol %s' % (sorted(core, key=repr), sorted(need, key=repr)), key='R3|%s|%s' % (cls.rsplit('::', 1)[-1], nm))
     wm = m('worker_main')
     v = A.view(wm)
